@@ -38,7 +38,17 @@ RULE = (
     "container flavour and after refused calls; gedit = every graph on <= 5 vertices x every single-bond toggle and "
     "remove_bonds_to on a queried bond list, v <= 4 also every boolean-mask selection; gmany = interleaved molecules "
     "(counts 9..257) and star degrees straddling 16/32/64/128/256. flav cases are non-trivial for L >= 2, gflav with "
-    ">= 1 bond, gedit with >= 2 atoms, the others always. No case is generated twice."
+    ">= 1 bond, gedit with >= 2 atoms, the others always. "
+    "second audit (both tiers, seed independent): ident = every pattern with L <= 3 over the 6-letter chain x res_id "
+    "alphabet x {array, stack} x {path bonds, first bond only}: every piece of residue_iter / chain_iter / "
+    "molecule_iter is edited by re-binding (annotations set / deleted, coord, bonds) and the operand re-checked; "
+    "allpal = every pattern with L <= 2 over 24 letters under every one of the 5 seed palettes and 3 palettes of values "
+    "with two awkward features; alltypes = every graph on <= 3 atoms x every BondType member; resize = every ordered "
+    "pair of L = 3 patterns over chain{2} x res_id{base, lower} as content a -> b -> a of one structure object; "
+    "gresize = every ordered pair of graphs on 2..4 vertices, one bond list edited in place a -> b -> a; derived = "
+    "every pattern with L <= 3 over 6 letters (path bonds): every boolean-mask / slice / index-array selection, copy, "
+    "stack model, stack slice, iterator piece and the concatenation with itself through all views and molecule "
+    "functions. No case is generated twice."
 )
 ASSUMPTIONS = [
     "reducing functions (np.sum, np.mean, len, ...) are trusted; the oracle applies the same function to the "
@@ -118,6 +128,13 @@ def bounds(tier):
             "gflav": {"max_vertices": 5, "bond_arrays": BOND_ARRAY_FLAVOURS, "roots": ROOT_FLAVOURS},
             "gedit": "v <= 5: every single-bond toggle, remove_bonds_to(every atom); v <= 4: every boolean mask",
             "gmany": {"molecule_counts": MANY_K[:-1], "star_degrees": DEGREES},
+            "ident": "L <= 3 over 6 letters x {array, stack} x {path, first bond}: 1 036 cases",
+            "allpal": {"palettes": len(ALL_PALETTES), "awkward": AWK_PALETTES, "patterns": "L <= 2 over 24 letters"},
+            "alltypes": "graphs on <= 3 atoms x all BondType members, constructor and add_bond",
+            "resize": "64 x 64 ordered pairs of L = 3 patterns over %r, every 8th as stack" % (RESIZE_LETTERS,),
+            "gresize": "all ordered pairs of graphs on 2, 3, 4 vertices (4 + 64 + 4096)",
+            "derived": "L <= 3 over 6 letters; 2^n masks, 4 slices, 2 index arrays, copy, 3 stack-derived, iterator "
+                       "pieces, arr + arr",
         },
     }
 
